@@ -32,11 +32,11 @@ def sig_digest(sig: dict) -> Dict[str, Any]:
 def core_defs_current(d: str) -> List[dict]:
     """regenerate core_defs.py from the shipped YAML and compare signatures with the shipped module"""
     viol = []
-    src = "/repo/src/pyrtma"
+    src = __import__("os").environ.get("VF_REPO", "/repo") + "/src/pyrtma"
     out = os.path.join(d, "core")
     os.makedirs(out)
     r = subprocess.run(["/venv/bin/python", "-m", "pyrtma.compile", "-i", os.path.join(src, "core_defs", "core_defs.yaml"), "--py", "-o", out, "-n", "core_defs"],
-                       capture_output=True, text=True, timeout=300, env=dict(os.environ, PYTHONPATH="/repo/src"))
+                       capture_output=True, text=True, timeout=300, env=dict(os.environ, PYTHONPATH=__import__("os").environ.get("VF_REPO", "/repo") + "/src"))
     if r.returncode != 0 or not os.path.exists(os.path.join(out, "core_defs.py")):
         return [{"signature": "C16/CoreDefsStale/core-yaml-does-not-compile", "replay": {"stderr": r.stderr[-800:]}}]
     new, e1 = defs.sig_python(os.path.join(out, "core_defs.py"), "core_defs_regen")
